@@ -16,7 +16,10 @@ CFG = {'streams': [{'name': 'C20',
                             "render_pretty of the walked chain; 62 the plain Display differs from render_plain; 63 the model's own text does "
                             'not show a context (excluded by the theorems); 64 the harness could not read a Context from its Debug rendering',
               'model_only_codes': [61, 62, 64]}],
- 'rule': 'generated programs with exactly one injected runtime fault (type error, unknown function, conflicting attribute, undefined edge, bad '
+ 'rule': 'C20r: the failing runs of C20 (30% re-laid out: tabs, statements behind non-ASCII literals), rendered with paths containing spaces, '
+         'non-ASCII and colons, and with the real DSL/source text (70%), a truncated one (rows missing), a CRLF copy or an unrelated text; '
+         'non-trivial = two-statement context, a Context::Other entry, a missing row or a non-ASCII path. C20: '
+         'generated programs with exactly one injected runtime fault (type error, unknown function, conflicting attribute, undefined edge, bad '
          'arity, eager faults in if/scan/for sources) at a random statement position and depth, plus naturally failing generated programs; both '
          'modes; non-trivial = fault at depth >= 1 or a two-statement (conflict) context',
  'explanation': "Theorems. STRICT: the error of a run is the bare cancellation or comes from one (stanza, match) block and sits in ONE statement "
@@ -28,7 +31,14 @@ CFG = {'streams': [{'name': 'C20',
                 "attribute / scoped variable); the cause is unwrapped and EVERY context is a valid context of the run: stanza location and "
                 "first full-match node of an executed (stanza, match) pair and the location of a statement of that stanza at any depth (the "
                 "failing statement or one enclosing it); no non-cancellation error escapes without a statement context "
-                "(lazy_error_ctx_valid, lazy_run_error_ctx_valid; state invariant lazy_ctx_invariant). The innermost context wins.",
+                "(lazy_error_ctx_valid, lazy_run_error_ctx_valid; state invariant lazy_ctx_invariant). The innermost context wins. "
+                "RENDERING: Model/ErrRender.v models display_pretty and the plain Display of execution/error.rs on the chain the Rust "
+                "code sees (contexts outermost first, Display of the innermost error), for any wording of the phrases; for EVERY "
+                "statement context of the chain the pretty text contains path:row+1:col+1: for the statement, the stanza and the "
+                "matched node (render_pretty_cites) and the text of the cited DSL/source lines whenever the given texts have these "
+                "rows (render_pretty_shows_lines; otherwise the excerpt is the citation and <missing source>: excerpt_missing_source); "
+                "entries come in chain order numbered 0..n, the innermost error last (render_pretty_entries, render_entry_head). "
+                "Stream C20r walks the real chain of failing runs and compares both texts character by character with the model.",
  'partial': ['lazy: WHICH statement of the stanza a context cites (the statement that created the failing thunk / deferred statement, or the '
              "enclosing top-level statement for failures in if/for blocks during execution) is compared by the stream with the model's; the "
              'theorem says it is a statement of the stanza of an executed (stanza, match) pair, with that pair\'s node',
@@ -40,4 +50,10 @@ CFG = {'streams': [{'name': 'C20',
                  'regex crate: modelled by Model/Regex.v on the generated sub-language (validated by stream C10rx); stdlib functions: Model/Stdlib.v '
                  '(validated by C13)',
                  'syntax nodes are identified by preorder index (KeyInjective: node ids distinct modulo 2^32, checked per tree in C04)',
-                 'errors returned by caller-supplied functions are plain errors']}
+                 'errors returned by caller-supplied functions are plain errors',
+                 'rendering: the Display of a statement and of the innermost error are opaque strings; paths are valid UTF-8 '
+                 '(to_string_lossy is the identity); built without the term-colors feature; Excerpt::gutter_width (f64 log10) is the '
+                 'number of decimal digits of row+1; the wording of the phrases is a parameter of the model, read off the implementation '
+                 'once per run on a fixed two-statement conflict (tag phrases_read_off_the_implementation:k/11; pinned wording as fallback); '
+                 'the chain is read from the Debug rendering of each Context (the type is private to the crate) and validated by '
+                 'printing it back (code 64)']}
